@@ -48,7 +48,7 @@ def replay(pid, path):
         print(json.dumps(doc.get("solver"), indent=1)[:3000])
         return 1
     out = harness.run_driver({"mode": "replay", "contract_module": doc["contract_module"], "key": doc["function"],
-                              "inputs": doc["inputs"], "timeout_s": 5.0})
+                              "inputs": doc["inputs"], "timeout_s": 5.0, "lemma": doc.get("lemma", False)})
     print(json.dumps(out, indent=1)[:4000])
     if out["violations"]:
         print(f"VIOLATION property={pid} replay={path}")
